@@ -326,11 +326,45 @@ fn cli(ctx: &mut Ctx, case: &StaticCase, rng: &mut Rng, focus: Option<&Value>) {
     };
     for prob in probs {
         let arg = focus.and_then(|f| f.get("argument")).and_then(|a| a.as_u64()).map(|a| a as usize).unwrap_or_else(|| 1 + rng.below(case.abs.n));
-        cli_one(ctx, case, &file, &prob, arg);
+        cli_one(ctx, case, &file, &prob, arg, false);
     }
 }
 
-fn cli_one(ctx: &mut Ctx, case: &StaticCase, file: &std::path::Path, prob: &str, arg: usize) {
+/// (4b) every acceptance problem x every argument of a small framework, default encoding, under
+/// {embedded, msat, kissat} x {status only, certificate}: a short cut taken under one backend or one
+/// certificate setting only shows on particular (problem, argument) pairs, which sampling one pair misses.
+fn cli_sweep(ctx: &mut Ctx, case: &StaticCase, focus: Option<&Value>) {
+    if case.abs.n == 0 || case.abs.n > 6 {
+        return;
+    }
+    let dir = ctx.out_dir.join(format!("c06-cli-{}", ctx.shard));
+    let _ = std::fs::create_dir_all(&dir);
+    let file = dir.join("instance-sweep.af");
+    let mut text = format!("p af {}\n", case.abs.n);
+    for (a, b) in case.abs.att.iter() {
+        text.push_str(&format!("{} {}\n", a + 1, b + 1));
+    }
+    if std::fs::write(&file, &text).is_err() {
+        ctx.harness_error("cannot write instance");
+        return;
+    }
+    if let Some(f) = focus {
+        if let (Some(p), Some(a)) = (f.get("problem").and_then(|p| p.as_str()), f.get("argument").and_then(|a| a.as_u64())) {
+            cli_one(ctx, case, &file, p, a as usize, true);
+            return;
+        }
+    }
+    ctx.count("cli_sweeps/every-acceptance-problem-and-argument");
+    for q in ["DC", "DS"] {
+        for s in ["CO", "PR", "ST", "SST", "STG", "ID", "GR"] {
+            for arg in 1..=case.abs.n {
+                cli_one(ctx, case, &file, &format!("{}-{}", q, s), arg, true);
+            }
+        }
+    }
+}
+
+fn cli_one(ctx: &mut Ctx, case: &StaticCase, file: &std::path::Path, prob: &str, arg: usize, sweep: bool) {
     let prob = prob.to_string();
     let bin = ctx.repo_bin_dir.join("crustabri");
     let msat_p = msat(ctx);
@@ -343,10 +377,14 @@ fn cli_one(ctx: &mut Ctx, case: &StaticCase, file: &std::path::Path, prob: &str,
         Some(if b { "YES".to_string() } else { "NO".to_string() })
     });
     let exp_too_costly = crate::props::static_eval::exp_cost(&case.abs) > 2000;
-    for enc in [None, Some("aux_var"), Some("exp"), Some("hybrid")] {
+    let encs: &[Option<&str>] = if sweep { &[None] } else { &[None, Some("aux_var"), Some("exp"), Some("hybrid")] };
+    for enc in encs.iter().copied() {
         // "launcher": the external solver is started through `timeout 60 <msat> vsplit=1`, i.e. with
         // several --external-sat-solver-opt values that must all reach the process, in order
         for ext in [None, Some(msat_p.as_str()), Some("kissat"), Some("launcher")] {
+            if sweep && ext == Some("launcher") {
+                continue;
+            }
             for cert in [false, true] {
                 if ext.is_some() && cert && enc.is_some() {
                     continue; // keep the number of processes moderate
@@ -386,6 +424,9 @@ fn cli_one(ctx: &mut Ctx, case: &StaticCase, file: &std::path::Path, prob: &str,
                 };
                 ctx.eval();
                 ctx.count("cli_runs");
+                if sweep {
+                    ctx.count(if ext.is_some() { "cli_sweep_runs/external-backend" } else { "cli_sweep_runs/embedded-backend" });
+                }
                 let so = String::from_utf8_lossy(&out.stdout).to_string();
                 let status = so.lines().next().unwrap_or("").to_string();
                 let cfg = format!("encoding={:?} external={:?} certificate={}", enc, ext.map(|x| x.rsplit('/').next().unwrap_or(x)), cert);
@@ -394,7 +435,7 @@ fn cli_one(ctx: &mut Ctx, case: &StaticCase, file: &std::path::Path, prob: &str,
                         &format!("C06/cli-configuration-fails/{}", prob),
                         json!({"problem": prob, "argument": arg, "configuration": cfg, "exit_status": out.status.code(),
                                "stderr": String::from_utf8_lossy(&out.stderr).chars().take(300).collect::<String>()}),
-                        &json!({"sub": "cli", "case": case.to_json()}),
+                        &json!({"sub": if sweep { "cli-sweep" } else { "cli" }, "case": case.to_json()}),
                     );
                     return;
                 }
@@ -403,7 +444,7 @@ fn cli_one(ctx: &mut Ctx, case: &StaticCase, file: &std::path::Path, prob: &str,
                         ctx.violation(
                             &format!("C06/cli-status-wrong-under-configuration/{}", prob),
                             json!({"problem": prob, "argument": arg, "configuration": cfg, "status": status, "expected": e}),
-                            &json!({"sub": "cli", "case": case.to_json()}),
+                            &json!({"sub": if sweep { "cli-sweep" } else { "cli" }, "case": case.to_json()}),
                         );
                         return;
                     }
@@ -415,7 +456,7 @@ fn cli_one(ctx: &mut Ctx, case: &StaticCase, file: &std::path::Path, prob: &str,
                             ctx.violation(
                                 &format!("C06/cli-status-depends-on-configuration/{}", prob),
                                 json!({"problem": prob, "argument": arg, "first": {"configuration": c0, "status": s0}, "other": {"configuration": cfg, "status": status}}),
-                                &json!({"sub": "cli", "case": case.to_json()}),
+                                &json!({"sub": if sweep { "cli-sweep" } else { "cli" }, "case": case.to_json()}),
                             );
                             return;
                         }
@@ -425,7 +466,9 @@ fn cli_one(ctx: &mut Ctx, case: &StaticCase, file: &std::path::Path, prob: &str,
         }
     }
     let s = format!("{}{}", prob, arg);
-    ctx.nontrivial(gen::case_hash(&case.abs, &["cli", &s]));
+    if !sweep || expected_line.as_deref() == Some("YES") {
+        ctx.nontrivial(gen::case_hash(&case.abs, &["cli", &s]));
+    }
 }
 
 /// Order and repetition on *dynamic* solver objects: the framework is loaded through updates, then
@@ -524,6 +567,10 @@ fn eval(ctx: &mut Ctx, case: &StaticCase, rng: &mut Rng, mode: &str, focus: Opti
         cli(ctx, case, rng, focus);
         return;
     }
+    if mode == "cli-sweep" {
+        cli_sweep(ctx, case, focus);
+        return;
+    }
     if case.pres.is_usize() {
         if let Ok(b) = build_usize(&case.pres) {
             go(ctx, case, &b, &mut oracle, rng, mode, focus);
@@ -553,6 +600,9 @@ pub fn run(ctx: &mut Ctx) {
         ("cli", "er-small", if q { 24 } else { 400 }),
         ("cli", "union", if q { 40 } else { 600 }),
         ("cli", "lattice", if q { 40 } else { 600 }),
+        ("cli-sweep", "er-small", if q { 24 } else { 300 }),
+        ("cli-sweep", "union", if q { 16 } else { 200 }),
+        ("cli-sweep", "lattice", if q { 8 } else { 100 }),
     ];
     let mut gi = 0u64;
     for (mode, family, count) in schedule {
@@ -577,6 +627,11 @@ pub fn run(ctx: &mut Ctx) {
 
 pub fn replay(ctx: &mut Ctx, case: &Value, detail: &Value, signature: &str) -> Result<(), String> {
     let mut rng = Rng::new(6);
+    if case.get("sub").and_then(|s| s.as_str()) == Some("cli-sweep") {
+        let c = StaticCase::from_json(&case["case"]).ok_or("bad case")?;
+        eval(ctx, &c, &mut rng, "cli-sweep", Some(detail));
+        return Ok(());
+    }
     if case.get("sub").and_then(|s| s.as_str()) == Some("cli") {
         let c = StaticCase::from_json(&case["case"]).ok_or("bad case")?;
         eval(ctx, &c, &mut rng, "cli", Some(detail));
